@@ -7,7 +7,13 @@ using namespace vlog;
 static const int G = 8;
 static std::string name; static int cap; static unsigned char *blk = nullptr;
 static std::unique_ptr<gstuff_autorecv> RX;
-static gstuff_context ctx_of(const std::string &n) { return n == "default" ? gstuff_context() : gstuff_context_v0(); }
+// "default", "v0"/"legacy" (the shipped alphabets) or "cx:START:STOP:STUB:SSTART:SSTOP:SSTUB" (any configured context)
+static gstuff_context ctx_of(const std::string &n) {
+    if (n.rfind("cx:", 0) == 0) { int v[6] = {0, 0, 0, 0, 0, 0}; sscanf(n.c_str() + 3, "%d:%d:%d:%d:%d:%d", v, v + 1, v + 2, v + 3, v + 4, v + 5);
+        gstuff_context c; c.GSTUFF_START = (char)v[0]; c.GSTUFF_STOP = (char)v[1]; c.GSTUFF_STUB = (char)v[2]; c.GSTUFF_STUB_START = (char)v[3]; c.GSTUFF_STUB_STOP = (char)v[4]; c.GSTUFF_STUB_STUB = (char)v[5]; return c; }
+    return n == "default" ? gstuff_context() : gstuff_context_v0(); }
+static std::vector<long long> ctx_bytes(const std::string &n) { gstuff_context c = ctx_of(n);
+    return {(unsigned char)c.GSTUFF_START, (unsigned char)c.GSTUFF_STOP, (unsigned char)c.GSTUFF_STUB, (unsigned char)c.GSTUFF_STUB_START, (unsigned char)c.GSTUFF_STUB_STOP, (unsigned char)c.GSTUFF_STUB_STUB}; }
 
 struct Rx {   // a receiver with an exactly sized buffer between guard bytes
     std::string n; int cap; unsigned char *blk; std::unique_ptr<gstuff_autorecv> rx;
@@ -29,7 +35,7 @@ static std::vector<std::vector<unsigned char>> parts_of(const std::string &s) {
 int main(int argc, char **argv) {
     return run(argc, argv, [&](const std::vector<std::string> &t) {
         const std::string &op = t[0];
-        if (op == "R") { name = t[1]; cap = num(t[2]); R.reset(new Rx(name, cap)); Ev e("Reset"); e.str("name", name.c_str()).i("cap", cap); e.end(); }
+        if (op == "R") { name = t[1]; cap = num(t[2]); R.reset(new Rx(name, cap)); Ev e("Reset"); e.str("name", name.rfind("cx:", 0) == 0 ? "custom" : name.c_str()).ints("cx", ctx_bytes(name)).i("cap", cap); e.end(); }
         else if (op == "Feed") {
             for (unsigned char c : blist(t[1])) {
                 int st = R->feed(c); int sz = R->size();
